@@ -18,8 +18,15 @@ META = {
                   "machine-independence theorems C03_{chacha_round,blake_round,jh_layer}_machine_indep (any machine that "
                   "refines the lane meaning computes the lane result, any number of rounds), their instantiation with the "
                   "intrinsic-level model of the x86 u32x4 type (C03_sse_u32x4_refines, C03_sse_chacha_narrow_indep, "
-                  "C03_sse_blake32_indep) and the composed C03_backends_agree_partial (hypothesis: every instance refines; "
-                  "the u32x4x4/u64x4/u128 components and the portable back end are not instantiated yet). The tie to the code is the battery: every configuration "
+                  "C03_sse_blake32_indep), and the composed statement WITHOUT hypothesis for the six real machines: "
+                  "C03_sse_m_refines / C03_avx2_m_refines / C03_generic_m_refines / C03_real_inst_refines (the machines built from the "
+                  "intrinsic-level models of SSE2, SSSE3/SSE4.1/AVX, AVX2 and from the portable back end with the soft.rs wrappers "
+                  "refine the lane meaning in all four components u32x4, u32x4x4, u64x4, u128x1/x2, either build profile), "
+                  "C03_backends_agree (any two configurations of any of the three macros give the same ChaCha narrow/wide rounds, "
+                  "BLAKE 32/64 rounds and JH rounds on all well-formed inputs, and neither panics), C03_real_backends_are_lane, "
+                  "C03_jh_lane_is_model / C03_real_backends_e8_is_model (JH's E8 on every real back end is Model/JH.v's e8). Not written "
+                  "over the machine record (covered by the correspondence only): the framing code around the round cores "
+                  "(feed-forward, transpose4, put_block framing, f8_impl load/xor). The tie to the code is the battery: every configuration "
                   "must reproduce the model's outputs and the model's selected Machine type, and all configurations must "
                   "agree with each other; a child process that dies (SIGILL/SIGSEGV) or panics is an outcome.",
     "level_note": "Trusted: Coq kernel+VM; the hand-written models (tied on generated cases); hook H1 (b4591b7); harness. "
